@@ -322,6 +322,10 @@ class MemTransport(asyncio.Transport):
     def write_eof(self):
         if self.eof_sent or self.closing:
             return
+        if getattr(self, "peer_reset", False) and not self.closed and not self.outbox:
+            # the peer's RST is already here but connection_lost has not been delivered yet: on a real socket
+            # shutdown(SHUT_WR) fails (asyncio's write_eof does not guard it)
+            raise OSError(errno.ENOTCONN, "Transport endpoint is not connected")
         self.eof_sent = True
         self.outbox.append(None)
         self._schedule_pump()
@@ -355,6 +359,7 @@ class MemTransport(asyncio.Transport):
         p = self.peer
         if p is not None and not p.closed:
             p.peer_gone = True
+            p.peer_reset = True
             self.loop.call_soon(p._lost, ConnectionResetError(errno.ECONNRESET, "Connection reset by peer"))
 
     def _lost(self, exc):
